@@ -340,14 +340,18 @@ def r7(ctx, F):
     puts = fl.calls_to('hub::HubClient::put')
     if not puts:
         ctx.missing('C03.R7', 'hub_sync -> HubClient::put')
+    from rules.hub import put_arg_slots
+    PS = put_arg_slots(F)
+    if PS is None:
+        ctx.missing('C03.R7', 'HubClient::put parameters (path: &str, expected: Option<[u8; 32]>, local: &Path, hash: [u8; 32])')
     for n_, (pb, pt) in enumerate(sorted(puts, key=lambda x: x[0])):
-        eo = fl.origins(pt['args'][2])
+        eo = fl.origins(pt['args'][PS['expected']])
         ok = False
         for o in eo:
             if o.kind == 'call' and o.key.endswith('::get'):
                 m = call_arg_origins(fl, o.bb, 0)
                 k = call_arg_origins(fl, o.bb, 1)
-                rel = fl.origins(pt['args'][1])
+                rel = fl.origins(pt['args'][PS['rel']])
                 if any(x.kind == 'call' and x.key == 'hub::HubClient::list' for x in m) and \
                    {(x.kind, x.key, x.bb) for x in k} == {(x.kind, x.key, x.bb) for x in rel}:
                     ok = True
